@@ -491,6 +491,13 @@ func (c *ctxT) errCase(e serr, payload []xml.Token, rnd *common.Rand) {
 		mut := append([]xml.Token{toks[0], xml.CharData("\n  ")}, toks[3:len(toks)-1]...)
 		mut = append(mut, toks[1], toks[2], toks[len(toks)-1])
 		c.sdecLine(mut)
+		// a foreign child before the condition and a second condition after it: the first
+		// element in the stanza-error namespace is the condition
+		f := xml.StartElement{Name: xml.Name{Space: "urn:app", Local: "first"}}
+		g := xml.StartElement{Name: xml.Name{Space: "urn:ietf:params:xml:ns:xmpp-stanzas", Local: "gone"}}
+		mut2 := append([]xml.Token{toks[0], f, f.End()}, toks[1:len(toks)-1]...)
+		mut2 = append(mut2, g, xml.CharData("xmpp:other@example.net"), g.End(), toks[len(toks)-1])
+		c.sdecLine(mut2)
 	}
 	if payload != nil {
 		return
